@@ -14,6 +14,7 @@ types; `Tree.fit` is wrapped (in this process only) to snapshot the tau matrix e
 Search: the property's own statement as a pure-Python oracle on real fitted vines.
 """
 import contextlib
+import os
 import signal
 import warnings
 
@@ -1228,6 +1229,38 @@ def kruskal_max(w):
     return out
 
 
+STRUCTURE_FILES = ('/copulas/multivariate/tree.py', '/copulas/multivariate/vine.py')
+
+
+def raised_in_structure_code(exc):
+    """'tree.py:<function>' when the innermost frame of the traceback that lies inside the copulas package is in
+    the vine/tree construction code (not in a pair copula's fit, which is where degenerate data is refused)."""
+    import traceback
+    frames = [f for f in traceback.extract_tb(exc.__traceback__) if '/copulas/' in f.filename.replace(os.sep, '/')]
+    if not frames:
+        return None
+    f = frames[-1]
+    fn = f.filename.replace(os.sep, '/')
+    if any(fn.endswith(s) for s in STRUCTURE_FILES):
+        return f'{fn.rsplit("/", 1)[-1]}:{f.name}'
+    return None
+
+
+def chain_table(rng, d, n=None):
+    """d columns of a noisy random walk across the columns in a shuffled order: the first regular tree is a path
+    (or nearly), so deeper trees hold pairs of edges that share one conditioned variable but not their conditioning
+    sets - the case the proximity condition exists for (needs d >= 5 and full depth to matter)."""
+    n = n or rng.choice([40, 60, 90])
+    rs = np.random.RandomState(rng.getrandbits(32))
+    Z = np.empty((n, d))
+    Z[:, 0] = rs.randn(n)
+    for j in range(1, d):
+        Z[:, j] = Z[:, j - 1] * rng.uniform(0.5, 0.9) + rs.randn(n) * rng.uniform(0.4, 0.9)
+    perm = list(range(d))
+    rng.shuffle(perm)
+    return pd.DataFrame(Z[:, perm], columns=[f'c{i}' for i in range(d)])
+
+
 def check_real(ctx, X, vt, t, counts, history=(), form='keyword'):
     """Oracle on the state after the LAST fit of one object (fitted on `history` first, if any); `t` is the
     truncation the caller's call means (the default when the argument is omitted), `form` how it was passed."""
@@ -1252,6 +1285,16 @@ def check_real(ctx, X, vt, t, counts, history=(), form='keyword'):
         fresh = (fst, fv, flog)
     if st == 'exc':
         counts['refused'] += 1
+        where = raised_in_structure_code(v)
+        if where and (not history or log == 'last'):
+            # the fit did not refuse the data (every refusal of the unchanged code is raised by a pair copula's
+            # fit in bivariate/): the tree construction itself broke down, so no vine of the requested depth exists
+            counts['failures'] += 1
+            ctx.fail_input(ep, inp, {'raises': f'{type(v).__name__}: {str(v)[:120]}', 'raised_in': where},
+                           'fit builds min(d-1, t) valid trees: the construction of tree k from a valid tree k-1 '
+                           'always finds d-k proximate pairs and identifies their conditioned/conditioning sets',
+                           f'{pre}:tree-construction-raises')
+            return True
         if history and log == 'last' and fresh[0] == 'ok':
             counts['failures'] += 1
             ctx.fail_input(ep, inp, f'{type(v).__name__}: {str(v)[:120]}',
@@ -1427,6 +1470,16 @@ def search(ctx, deep):
                 counts['refits'] = counts.get('refits', 0) + 1
                 fr, tr = pick_call(rng, d)
                 check_real(ctx, X, vt, tr, counts, hist, fr)
+    # chain-like dependence on 5..7 columns at full depth (regular vines: proximity between edges whose conditioning
+    # sets differ only arises from tree 3 of such tables on)
+    for it in range(30 if deep else 8):
+        d = 5 + it % 3
+        X = relabel(rng, chain_table(rng, d))
+        counts['chain-table fits'] = counts.get('chain-table fits', 0) + 1
+        check_real(ctx, X, 'regular', d + (it % 2), counts, form=rng.choice(['keyword', 'positional']))
+        if it % 4 == 0:
+            for vt in ('center', 'direct'):
+                check_real(ctx, X, vt, d, counts)
     # every truncation 1..d+1 on small tables, passed positionally / by keyword / with X by keyword / omitted
     for d in ((2, 3, 4) if not deep else (2, 3, 4, 5, 6)):
         X = relabel(rng, gen_table(rng, d, rng.choice(['plain', 'discrete', 'swap'])))
